@@ -954,6 +954,18 @@ func indexGuard(p *Prog, at ssa.Instruction, coll, idx ssa.Value) string {
 			}
 		}
 		if len(vals) == 1 {
+			// (a divisor that is the helper's parameter is what this call passes)
+			if bo, ok := vals[0].(*ssa.BinOp); ok && bo.Op == token.REM {
+				if pr, isP := bo.Y.(*ssa.Parameter); isP {
+					for i, q := range cl.Call.StaticCallee().Params {
+						if q == pr && i < len(cl.Call.Args) && lenOf(cl.Call.Args[i], coll) {
+							if n, ok := lowerBoundOnLen(at, coll); ok && n >= 1 && isUnsignedOrNonNeg(bo.X) {
+								return "index is a non-negative value modulo len (computed by " + cl.Call.StaticCallee().Name() + " from the length it is given), len > 0"
+							}
+						}
+					}
+				}
+			}
 			if bo, ok := vals[0].(*ssa.BinOp); ok && bo.Op == token.REM && lenOf(bo.Y, coll) {
 				if n, ok := lowerBoundOnLen(at, coll); ok && n >= 1 && isUnsignedOrNonNeg(bo.X) {
 					return "index is a non-negative value modulo len (computed by " + cl.Call.StaticCallee().Name() + "), len > 0"
@@ -1616,6 +1628,8 @@ func assertGuard(x *ssa.TypeAssert) string {
 	return ""
 }
 
+var nonZeroBusy = map[*ssa.Function]bool{}
+
 func nonZeroGuard(at ssa.Instruction, y ssa.Value) string {
 	for _, f := range CmpFactsAt(at) {
 		for _, g := range []Fact{f, {Op: flip(f.Op), X: f.Y, Y: f.X}} {
@@ -1634,6 +1648,31 @@ func nonZeroGuard(at ssa.Instruction, y ssa.Value) string {
 	if isLenCall(y) {
 		if n, ok := lowerBoundOnLen(at, lenArg(y)); ok && n >= 1 {
 			return "divisor is len(x), len > 0"
+		}
+	}
+	// divisor = a parameter of an unexported helper: non-zero at every call site
+	if pr, ok := y.(*ssa.Parameter); ok {
+		fn := pr.Parent()
+		sites := pkgCallers(fn)
+		pi := -1
+		for i, q := range fn.Params {
+			if q == pr {
+				pi = i
+			}
+		}
+		if len(sites) > 0 && pi >= 0 && len(nonZeroBusy) < 3 && !nonZeroBusy[fn] {
+			nonZeroBusy[fn] = true
+			all := true
+			for _, s := range sites {
+				a := ArgOfParam(s, fn, pi)
+				if a == nil || nonZeroGuard(s, a) == "" {
+					all = false
+				}
+			}
+			delete(nonZeroBusy, fn)
+			if all {
+				return "divisor is a parameter that every call site passes as a value known to be != 0"
+			}
 		}
 	}
 	// divisor = a field of the receiver / a pointer parameter, checked != 0 by every caller on the object it passes,
